@@ -34,9 +34,8 @@ namespace CentrifugeVerif.Gen.ControlCodec
 /-- unsubscribe: every option (`WithUnsubscribeClient`, `…Session`, `WithCustomUnsubscribe`,
 `…LabelFilter`, `…AllUsers`) reaches a remote node unchanged. -/
 theorem control_roundtrip_unsubscribe (u ch : String) (o : GUnsubscribeOptions) :
-    (remoteUnsubscribe (encodeUnsubscribe u ch o)).view = (localUnsubscribe u ch o).view := by
-  simp only [remoteUnsubscribe, encodeUnsubscribe, localUnsubscribe]
-  cases o.unsubscribe <;> by_cases h : (u = "" ∧ o.allUsers = true) <;> simp [h, filter_comp]
+    (remoteUnsubscribe (encodeUnsubscribe u ch o)).view = (localUnsubscribe u ch o).view :=
+  unsubscribe_roundtrip u ch o
 
 /-- disconnect: every option (`WithCustomDisconnect`, `…Client`, `…Session`, `…ClientWhitelist`,
 `…LabelFilter`, `…AllUsers`) reaches a remote node unchanged. -/
